@@ -48,3 +48,8 @@ MANIFEST = dict(
               "real client with a direct oracle + model-based replay of the reader",
     category="proof",
 )
+
+# integrator's addition: "cache waiters are released when the connection dies or is closed" is tied at store level by the
+# lru observer of C09 (Close after histories with pending flights anywhere in the LRU order; seeded change C04-2)
+from props import C09 as _c09  # noqa: E402
+SPEC["observers"] = list(SPEC["observers"]) + [dict(o, corpus=False) for o in _c09.SPEC["observers"] if o["cmd"] == "obs_lru"]
